@@ -98,4 +98,14 @@ PROPS = {
                         "filter / sync / relay protocol messages are covered by the ops of C06, C02 and C18 as they are added"],
         "trusted_base": ["catch_unwind around CKBProtocolHandler::received; modelled panic sites: Matching.v, LastStateProof.v, Difficulty.v, System.v"],
     },
+    "C13": {
+        "ops": [("c13", "RunC13", {"quick": 240, "thorough": 3000})],
+        "rule": "a real RocksDB filled through filter_block with generated blocks (lock/type scripts from a pool sharing code hash, hash type and args prefixes incl. "
+                "trailing 0x00 / 0xff bytes; several cells per block; spends), queried through BlockFilterRpcImpl::{get_cells, get_transactions, get_cells_capacity} "
+                "with exact / shortened / extended / empty args search keys, both orders, limits 1,2,3,5,1000, all five filters with random (also empty and inverted) "
+                "ranges; every walk follows last_cursor to the end, each page is one case compared with Model/Query.v on the raw key dump; oracle: pages concatenated = "
+                "the matching entries of the dump exactly once in key order, capacity = sum over get_cells + stored tip; distinct = distinct (query, cursor, dump)",
+        "assumptions": ["RocksDB iteration order = bytewise key order; snapshot isolation trusted", "matching = the stored key starts with the search prefix (as ckb-indexer)"],
+        "trusted_base": ["modelled: build_query_options, build_filter_options, get_cells, get_transactions (grouped and ungrouped), get_cells_capacity; key layout read from the dump"],
+    },
 }
